@@ -123,6 +123,10 @@ def scenarios_c11(quick, seed):
         outs = [["val"], ["err"], ["nf"], ["val", "err"], ["val", "nf", "err"]][j % 5]
         out.append({"getters": j % 3, "bulk": (j // 3) % 2 if j % 4 == 0 else 0, "refreshers": 1 + (j // 2) % 3, "writers": [] if j % 4 else [["set"], ["invalidate"], ["compute"]][(j // 4) % 3],
                     "preload": 1, "outcomes": outs, "policy": "random" if j % 2 else "pct", "seed": seed * 100000 + 50000 + j, "script": [], "refresh": 1, "bulkkeys": 2, "hgate": 0, "bulkref": 0, "inloader": [], "expiry": 0})
+        if j % 6 == 5:
+            # the entry is due for refresh when the race starts: reads return the old value and hand a reload to the executor; the refresh
+            # calculator's reload hook is a gate, so other readers run while the reloaded value is being installed
+            out[-1].update(getters=3, bulk=0, refreshers=0, writers=[], outcomes=["val"], stale=1, policy=["random", "pct"][(j // 6) % 2] + "+atcalc")
     return out
 
 
@@ -352,7 +356,8 @@ def run(prop, tier, replay=None, collect_only=False):
     if broken:
         for b in broken:
             vlib.log("BROKEN:", b)
-        return 2
+        if not violations:       # (what the working parts observed on the real code stands: a violation is reported even if another part broke)
+            return 2
     if violations:
         for x, sc, path in violations[:10]:
             print("VIOLATION property=%s replay=%s" % (prop, path))
